@@ -9,6 +9,7 @@ import (
 	"reflect"
 	"strings"
 	"sync"
+	"time"
 
 	"github.com/la5nta/wl2k-go/transport"
 )
@@ -59,8 +60,28 @@ func (d fakeCtxDialer) DialURLContext(ctx context.Context, u *transport.URL) (ne
 	return nil, dialedErr{d.id}
 }
 
+var c19DialCount int
+
 func c19Dial(scheme string) string {
-	_, err := transport.DialURL(&transport.URL{Scheme: scheme})
+	// the registry decides which dialer is reached; whether the caller's context is live,
+	// already cancelled or already expired is the dialer's business (seeded change C19-e
+	// returned the context's error before looking the scheme up)
+	c19DialCount++
+	var err error
+	switch c19DialCount % 4 {
+	case 0:
+		_, err = transport.DialURL(&transport.URL{Scheme: scheme})
+	case 1:
+		_, err = transport.DialURLContext(context.Background(), &transport.URL{Scheme: scheme})
+	case 2:
+		ctx, cancel := context.WithCancel(context.Background())
+		cancel()
+		_, err = transport.DialURLContext(ctx, &transport.URL{Scheme: scheme})
+	default:
+		ctx, cancel := context.WithDeadline(context.Background(), time.Unix(1, 0))
+		_, err = transport.DialURLContext(ctx, &transport.URL{Scheme: scheme})
+		cancel()
+	}
 	var de dialedErr
 	switch {
 	case errors.As(err, &de):
